@@ -240,26 +240,68 @@ def r8(ctx):
     P = ctx.P
     key = MG + "::remove_move"
     body = P.body(key)
-    starts = []
-    for blk in body["blocks"]:
-        for s in blk["s"]:
-            r = s.get("r", {})
-            if r.get("k") == "agg" and r.get("adt") == "core::ops::range::Range":
-                starts.append(k2.describe_operand(P, body, r["ops"][0]))
-    ctx.ob("remove_move range", starts == [("int", 0, "usize")], f"remove_move scans entries from {starts}; entries before the cursor come back after set_mask rewinds, so the scan must start at 0",
-           site=body.get("def_span"), sample={"start": str(starts)})
-    # subtracts the destination under src == source
+    site = body.get("def_span")
     sub = {t["f"]["fn"] for _, t in P.calls(key) if "SubAssign<chess_bitboard::pos::Pos>" in t["f"].get("fn", "")}
     eng = T.Engine(P, opaque=sub)
     eng.trace_calls = set(eng.opaque)
     rets, loops, _ = eng.paths(key)
-    ok = False
-    for lf in rets:
-        if lf.ret == T.TRUE:
+    mv = ("param", 1, "a1")
+    finds = [(bi, t) for bi, t in P.calls(key) if "core::iter::traits::iterator::Iterator>::find::<" in t["f"].get("fn_args", "")]
+    if not finds:
+        # index-loop form: for x in 0..len { if moves[x].src == mv.source { moves[x].moves -= mv.dest; return true } } false
+        starts = []
+        for blk in body["blocks"]:
+            for s in blk["s"]:
+                r = s.get("r", {})
+                if r.get("k") == "agg" and r.get("adt") == "core::ops::range::Range":
+                    starts.append(k2.describe_operand(P, body, r["ops"][0]))
+        ctx.ob("remove_move range", starts == [("int", 0, "usize")], f"remove_move scans entries from {starts}; entries before the cursor come back after set_mask rewinds, so the scan must start at 0",
+               site=site, sample={"start": str(starts)})
+        ok = False
+        for lf in rets:
+            if lf.ret == T.TRUE:
+                calls = [c for c in lf.trace if c[0] == "call"]
+                eqs = [t for t, v in lf.cond if v == 1 and "source" in T.show(t) and "src" in T.show(t)]
+                ok = len(calls) == 1 and calls[0][2][1] == ("field", mv, "dest") and bool(eqs)
+        ctx.ob("remove_move effect", ok, "remove_move does not subtract chess_move.dest from the entry whose src equals chess_move.source", site=site)
+    else:
+        # iterator form: match self.moves.iter_mut().find(|e| e.src == mv.source) { Some(e) => { e.moves -= mv.dest; true } None => false }
+        whole = False
+        for bi, t in P.calls(key):
+            if t["f"].get("fn", "").endswith("]>::iter_mut") or "::iter_mut" in t["f"].get("fn", ""):
+                d = k2.describe_operand(P, body, t["a"][0])
+                x = d
+                while isinstance(x, tuple) and x and x[0] in ("ref", "proj"):
+                    x = x[1]
+                whole = x[0] == "call" and x[1].endswith("DerefMut>::deref_mut") and x[2] == (("ref", ("place", "self", ("d", "moves"))),)
+        ctx.ob("remove_move range", whole and len(finds) == 1, "remove_move does not search the whole entry list (self.moves.iter_mut()); entries before the cursor come back after set_mask rewinds",
+               site=site, sample={"form": "iter_mut().find"})
+        ck = [k for k in P.fns if k.startswith(key + "::{closure")]
+        pred_ok = False
+        if len(ck) == 1:
+            lv = T.Engine(P).tabulate(ck[0])
+            caps = []
+            for blk in body["blocks"]:
+                for s in blk["s"]:
+                    r = s.get("r", {})
+                    if r.get("k") == "agg" and r.get("ak") == "closure":
+                        caps = [k2.describe_operand(P, body, o) for o in r["ops"]]
+            env0 = caps[0] if len(caps) == 1 else None
+            while isinstance(env0, tuple) and env0 and env0[0] == "ref":
+                env0 = env0[1]
+            if len(lv) == 1 and lv[0].ret[0] == "bin" and lv[0].ret[1] == "Eq" and env0 == ("place", "a1", ("source",)):
+                sides = {T.show(x) for x in lv[0].ret[2:]}
+                pred_ok = any(".src" in s_ for s_ in sides) and any("a0.0" in s_ for s_ in sides)
+        eff_ok = False
+        for lf in rets:
             calls = [c for c in lf.trace if c[0] == "call"]
-            eqs = [t for t, v in lf.cond if v == 1 and "source" in T.show(t) and "src" in T.show(t)]
-            ok = len(calls) == 1 and calls[0][2][1] == ("field", ("param", 1, "a1"), "dest") and bool(eqs)
-    ctx.ob("remove_move effect", ok, "remove_move does not subtract chess_move.dest from the entry whose src equals chess_move.source", site=body.get("def_span"))
+            found = [v for t_, v in lf.cond if t_[0] == "discr" and t_[1][0] == "app" and "Iterator>::find::<" in t_[1][1]]
+            if lf.ret == T.TRUE:
+                eff_ok = (found == ["Some"] and len(calls) == 1 and calls[0][2][1] == ("field", mv, "dest") and "Iterator>::find::<" in T.show(calls[0][2][0]) and T.show(calls[0][2][0]).rstrip(")").endswith(".moves"))
+            elif calls:
+                eff_ok = False
+                break
+        ctx.ob("remove_move effect", pred_ok and eff_ok, f"remove_move does not subtract chess_move.dest from the entry whose src equals chess_move.source (predicate ok={pred_ok}, effect ok={eff_ok})", site=site)
 
 
 @rule("C10.W", "type-level: compile-fail witnesses with compiling twins (K6; thorough tier)")
